@@ -1,6 +1,6 @@
 CONSTANTS
   Server = {1, 2, 3}
-  Campaigners = {1, 3}
+  Campaigners = {1, 2, 3}
   MaxTerm = 2
   MaxProposals = 0
   MaxCrashes = 0
@@ -26,7 +26,7 @@ CONSTANTS
   AddVoters = {3}
   RemoveVoters = {1, 2}
   MaxConfChanges = 2
-  MaxConfRefusals = 0
+  MaxConfRefusals = 1
   W_ConfChangeNoPendingCheck = FALSE
   W_AddedVoterCaughtUp = FALSE
 INIT Init
